@@ -928,6 +928,17 @@ package common
 //@ define slot_seed(spec SpecP, mixes MixesI, epoch int, slot int) Root32 = sha256(cat(seed_of(spec, mixes, epoch, DOMAIN_BEACON_PROPOSER), le64(slot)))
 //@ ufun st_mixes_err(StateI) bool
 //@ ufun st_mixes(StateI) MixesI
+// LoadProposers: the proposers of the context's CURRENT epoch, sampled from that epoch's active indices (compute_proposer_index per slot)
+//@ func (epc *EpochsContext) LoadProposers(state) err
+//@   property C07 C08
+//@   nooverflow
+//@   requires epc != nil && epc.CurrentEpoch != nil
+//@   requires epc.Spec != nil && state != nil && 0 < epc.Spec.SLOTS_PER_EPOCH && epc.Spec.SLOTS_PER_EPOCH <= 1024 && 0 < epc.Spec.TARGET_COMMITTEE_SIZE && len(epc.CurrentEpoch.ActiveIndices) <= 1099511627776
+//@   requires epc.Spec.MIN_SEED_LOOKAHEAD + 1 <= epc.Spec.EPOCHS_PER_HISTORICAL_VECTOR && epc.CurrentEpoch.Epoch + epc.Spec.EPOCHS_PER_HISTORICAL_VECTOR < 18446744073709551616 && (epc.CurrentEpoch.Epoch + 1) * epc.Spec.SLOTS_PER_EPOCH < 18446744073709551616
+//@   requires balances: epc.Spec.MAX_EFFECTIVE_BALANCE < 72057594037927936 && (forall v ValI :: {v_eb(v)} v_eb(v) < 72057594037927936)
+//@   assigns epc.Proposers
+//@   ensures shape: err == nil ==> epc.Proposers != nil && epc.Proposers.Epoch == epc.CurrentEpoch.Epoch && epc.Proposers.Spec == epc.Spec && len(epc.Proposers.Proposers) == epc.Spec.SLOTS_PER_EPOCH
+//@   ensures proposers: err == nil ==> (forall i :: {epc.Proposers.Proposers[i]} 0 <= i && i < epc.Spec.SLOTS_PER_EPOCH ==> (let sd := slot_seed(epc.Spec, st_mixes(state), epc.CurrentEpoch.Epoch, epc.CurrentEpoch.Epoch * epc.Spec.SLOTS_PER_EPOCH + i) in prop_scan(epc.Spec.MAX_EFFECTIVE_BALANCE, st_vals(state), epc.Spec.SHUFFLE_ROUND_COUNT % 256, epc.CurrentEpoch.ActiveIndices, sd, 0) >= 0 && epc.Proposers.Proposers[i] == prop_cand(epc.Spec.SHUFFLE_ROUND_COUNT % 256, epc.CurrentEpoch.ActiveIndices, sd, prop_scan(epc.Spec.MAX_EFFECTIVE_BALANCE, st_vals(state), epc.Spec.SHUFFLE_ROUND_COUNT % 256, epc.CurrentEpoch.ActiveIndices, sd, 0))))
 //@ func ComputeProposers(spec, state, epoch, active) (r, err)
 //@   property C07
 //@   nooverflow
